@@ -146,12 +146,14 @@ def render_v3000(M, rng, perm=None, opts=None):
                 tail.reverse()
             blines.append(_join([str(j), str(t)] + ends, rng, o["wide"]) + " " + " ".join(tail))
     body.append("BEGIN CTAB")
-    body.append(_join(["COUNTS", str(len(alines)), str(len(blines)), "0", "0", "0"], rng, o["wide"]))
+    body.append(_join(["COUNTS", str(len(alines)), str(len(blines)), "1" if o["trail"] else "0", "0", rng.choice(["0", "0", "1"])]
+                      + (["REGNO=12345"] if rng.random() < 0.2 else []), rng, o["wide"]))
     body.append("BEGIN ATOM"); body += alines; body.append("END ATOM")
     if blines or rng.random() < 0.2:
         body.append("BEGIN BOND"); body += blines; body.append("END BOND")
     if o["trail"]:
-        body += ["BEGIN SGROUP", f"1 DAT 0 ATOMS=(1 {idx_at_pos[0]}) FIELDNAME=CHG FIELDDATA=MASS=7", "END SGROUP",
+        body += ["BEGIN SGROUP", f"1 DAT 0 ATOMS=(1 {idx_at_pos[0]}) FIELDNAME=CHG FIELDDATA=" + rng.choice(["MASS=7", "5'-end", '"two words"', "C:\\", "C5'", '"RAD=3 CHG=1"']),
+                 f"2 SUP 0 ATOMS=(1 {idx_at_pos[0]}) LABEL=" + rng.choice(["Me", "C5'", '"t Bu"']), "END SGROUP",
                  "BEGIN COLLECTION", f"MDLV30/STEABS ATOMS=(1 {idx_at_pos[0]})", "END COLLECTION"]
     body.append("END CTAB")
     phys = []
@@ -169,8 +171,8 @@ def render_v3000(M, rng, perm=None, opts=None):
             phys.append("M  V30 " + p + tb)
     head = ["", "  SPEC      0101000000", "", "  0  0  0     0  0            999 V3000"]
     if o["header"]:
-        head[0] = rng.choice(["water", "a name - with a dash-", "M  END", "   "])
-        head[2] = rng.choice(["comment CHG=5 MASS=3", "M  V30 not a block line", ""])
+        head[0] = rng.choice(["water", "a name - with a dash-", "M  END", "   ", "compound 17, exported as V3000", "converted from V2000", "it's 5'-end \\"])
+        head[2] = rng.choice(["comment CHG=5 MASS=3", "M  V30 not a block line", "", "checked against V2000", "  0  0  0     0  0            999 V3000"])
     lines = head + phys + ["M  END"]
     if o["trail"]:
         lines += ["> <DATA>", "M  V30 1 C 0 0 0 0 MASS=9", "", "$$$$"]
@@ -205,7 +207,8 @@ def render_v2000(M, rng, perm=None, opts=None):
     o.update(opts or {})
     lines = ["", "  SPEC      0101000000", ""]
     alist = ["  1 F    2   6   7", "  1 T    1   8"] if o["lists"] else []
-    lines.append(f"{n:3d}{len(M['bonds']):3d}{len(alist):3d}  0  0  0  0  0  0  0999 V2000")
+    # counts line aaabbblllfffcccsssxxxrrrpppiiimmmvvvvvv: chiral flag 0 / 1, obsolete fields anything, no Stext entries
+    lines.append(f"{n:3d}{len(M['bonds']):3d}{len(alist):3d}  0{rng.choice([0, 0, 1]):3d}  0{rng.choice([0, 0, 2]):3d}{rng.choice([0, 0, 1]):3d}{rng.choice([0, 0, 3]):3d}{rng.choice([0, 0, 1]):3d}999 V2000")
     for k in order:
         a = M["atoms"][k]
         sym = a["sym"]
@@ -293,6 +296,8 @@ def reader_stress_texts(rng, tier):
                 lines = [l[:31] + l[31:34].upper() + l[34:] if len(l) > 60 and l[30] == " " and "V2000" not in l else l for l in lines]
         else:
             lines, _ = render_v3000(M, rng, opts={"defaults": True} if rng.random() < 0.5 else None)
+            if rng.random() < 0.25:     # values a tolerant reader might start to accept: real-valued masses / charges, signs, exponents
+                lines = [l.replace("MASS=13", "MASS=13.00335").replace("MASS=2 ", "MASS=2.0141 ").replace("MASS=14", "MASS=+14").replace("RAD=2", "RAD=2.0") for l in lines]
         out.append((f"t{i}", "\n".join(lines)))
     return out
 
